@@ -50,17 +50,24 @@ def l2_replay(rep, n, over=None, kinds="KindsAll", pols="PolAll"):
         proto = "at4" if i % 2 == 0 else "at5"
         hs, meta = L2.to_harness(l2, proto, seed=i)
         batch.append((f"l2-{i}", proto, hs, meta))
-    verdicts, metas = PS.run_batch(rep, batch)
-    PS.judge(rep, verdicts, metas)
+    for k in range(0, len(batch), 2500):
+        verdicts, metas = PS.run_batch(rep, batch[k:k + 2500])
+        PS.judge(rep, verdicts, metas)
+        del verdicts, metas
     rep.part("SocketImpl schedules replayed into the real socket", scripts=len(batch), simulated_states=gen)
     if batch:
         rep.sample({"kind": "SocketImpl schedule", "l2_script": batch[0][3]["l2"]})
     return len(batch)
 
 
+CHUNK = 2500      # scripts executed, validated and judged at a time (bounds the memory of the thorough tier)
+
+
 def run_generated(rep, name, scripts):
-    verdicts, metas = PS.run_batch(rep, scripts)
-    PS.judge(rep, verdicts, metas)
+    for k in range(0, len(scripts), CHUNK):
+        verdicts, metas = PS.run_batch(rep, scripts[k:k + CHUNK])
+        PS.judge(rep, verdicts, metas)
+        del verdicts, metas
     rep.part(name, scripts=len(scripts))
     if scripts:
         rep.sample({"kind": name, "script_head": scripts[0][2][:14], "meta": {k: v for k, v in scripts[0][3].items() if k != "l2"}})
